@@ -152,8 +152,32 @@ int main(int argc, char **argv) {
                     }
                     M = std::max(M, double(std::fabs(gr_seg_advance_X(A))));
                     double tol = 2.0 * (2.0 * ns + 4.0) * std::ldexp(1.0, -23) * double(s) * M;
+                    // finalise() recurses over children AND siblings and gives up beyond depth 100 without positioning the slot:
+                    // such slots keep a stale (design-unit) origin whatever the font - known finding, keyed separately.
+                    // depth(s) = depth(parent) + 1 + index of s in its parent's child chain; bases have depth 0.
+                    std::map<const gr_slot *, int> depthA;
+                    std::vector<char> deep;
+                    {
+                        std::vector<const gr_slot *> ord;
+                        for (const gr_slot *p = gr_seg_first_slot(A); p; p = gr_slot_next_in_segment(p)) ord.push_back(p);
+                        // parents may come after their children in stream order: iterate to a fixed point (bounded)
+                        for (int round = 0; round < 4 && depthA.size() < ord.size(); ++round)
+                            for (const gr_slot *p : ord) {
+                                if (depthA.count(p)) continue;
+                                const gr_slot *par = gr_slot_attached_to(p);
+                                if (!par) { depthA[p] = 0; continue; }
+                                auto it = depthA.find(par);
+                                if (it == depthA.end()) continue;
+                                int k = 0;
+                                for (const gr_slot *c = gr_slot_first_attachment(par); c && c != p && k < 100000; c = gr_slot_next_sibling_attachment(c)) ++k;
+                                depthA[p] = it->second + 1 + k;
+                            }
+                        for (const gr_slot *p : ord) { auto it = depthA.find(p); deep.push_back(it == depthA.end() || it->second > 100); }
+                    }
                     auto cmp = [&](const char *what, int idx, double av, double bv) {
                         double err = std::fabs(bv - double(s) * av);
+                        bool isdeep = idx >= 0 && size_t(idx) < deep.size() && deep[size_t(idx)];
+                        if (isdeep) { if (err > tol) V(fmt("scale:%s:beyond-attachment-depth-100", what).c_str(), "slot %d lies deeper than 100 in the child/sibling recursion of finalise(): design %.9g, pixel %.9g", idx, av, bv); else st.add("deep_slots_ok"); return; }
                         if (tol > 0) worst = std::max(worst, err / tol);
                         if (err > tol) V(fmt("scale:%s", what).c_str(), "slot %d: design %.9g x %.9g = %.9g but pixel value %.9g (error %.3g > tol %.3g)", idx, av, double(s), double(s) * av, bv, err, tol);
                     };
